@@ -169,7 +169,8 @@ C05B_INSTR = ["group_context.go|sync|handleGroupMetadataEvent"]
 PROPS["C05"]["units"].append(
     {"name": "c05b-completeness", "pkg": ROOT, "run": "TestVerifC05B", "instr": C05B_INSTR, "timeout": {"quick": 900, "thorough": 3000}})
 PROPS["C02"]["units"].append(
-    {"name": "c02-store-retry", "pkg": ROOT, "run": "TestVerifC08", "instr": C08_INSTR, "timeout": {"quick": 900, "thorough": 3400}})
+    # the same monitor is the whole of C08, where its thorough tier runs; here the quick volume suffices in both tiers
+    {"name": "c02-store-retry", "pkg": ROOT, "run": "TestVerifC08", "instr": C08_INSTR, "force_tier": "quick", "timeout": {"quick": 900, "thorough": 1800}})
 PROPS["C05"]["units"].append(
     {"name": "c05-filter", "pkg": ROOT, "run": "TestVerifC05Filter", "timeout": {"quick": 600, "thorough": 1200}})
 PROPS["C12"] = {
